@@ -87,6 +87,9 @@ func vFanTemplates(proj map[string]interface{}) []*vEntry {
 				add(id, fmt.Sprintf(":%s QUIT :gone", p))
 			}
 			add(id, "QUIT :services going down")
+			for _, pn := range vPseudo {
+				add(id, fmt.Sprintf("NICK %s 1 1 %s services.example services.example 0 +o :%s service", pn, strings.ToLower(pn[:2]), pn))
+			}
 			add(id, "NICK Global 1 1 gl services.example services.example 0 +o :Global service")
 			add(id, "PING :x")
 			continue
